@@ -168,6 +168,8 @@ def deref_oracle(case, runs):
     must show the value the referenced row has: its written field, its id, or - for the hidden __h0 of
     the once_cluster_randref stream, defined as f0 + 90 - the value derived from the written f0"""
     reads = {}          # (table, field) -> (reference field, attribute)
+    if "name_collisions" in case.get("features", []):
+        return None      # a field named like a nickname / variable: `p.f` need not mean "field f of the row p names"
     for t in S.walk_templates(case["recipe"]):
         refs = {f for f, d in t["fields"] if d[0] == "randref"}
         for f, d in t["fields"]:
@@ -198,7 +200,7 @@ def deref_oracle(case, runs):
                     if "f0" not in target or target["f0"][0] != "int":
                         continue
                     want = ["int", target["f0"][1] + 90]
-                elif attr in target:
+                elif attr in target and target[attr][0] in ("int", "str"):
                     want = target[attr]
                 else:
                     continue
